@@ -1,4 +1,75 @@
+/-
+  C09 — dist and angle equal the Cartesian distance and angle.
+  The bracket expressions are regenerated from geometer/operators.py (translator A, Geo/Gen/Operators.lean) and
+  evaluated at the circular points I = (−i, 1, 0), J = (i, 1, 0) over the Gaussian numbers `Gauss F`.
+-/
+import Geo.Gen.Operators
 import Geo.Spec.Euclid
+import Geo.Proofs.Lemmas
+import Mathlib.Tactic.FieldSimp
+import Mathlib.Algebra.CharZero.Defs
 namespace Geo
-theorem C09_placeholder : (1 : Nat) = 1 := rfl
+open Spec
+
+variable {F : Type} [Field F] [CharZero F]
+
+/-- real coordinate vector inside the Gaussian numbers -/
+def cplx (p : Nat → F) : Nat → Gauss F := fun k => Gauss.ofReal (p k)
+/-- the circular points as the module-level constants `I`, `J` of geometer/point.py define them -/
+def circI : Nat → Gauss F := fun k => match k with | 0 => ⟨0, -1⟩ | 1 => ⟨1, 0⟩ | _ => ⟨0, 0⟩
+def circJ : Nat → Gauss F := fun k => match k with | 0 => ⟨0, 1⟩ | 1 => ⟨1, 0⟩ | _ => ⟨0, 0⟩
+
+/-- **T09.1** `[P,Q,I][P,Q,J] = (PₓQ_z − QₓP_z)² + (P_yQ_z − Q_yP_z)²` (a real number), `[P,I,J][Q,I,J] = −4 P_z Q_z` -/
+theorem T09_1_brackets (p q : Nat → F) :
+    let rad := Gen.pd_radicand (Gen.pd_pqi (cplx p) (cplx q) circI circJ) (Gen.pd_pqj (cplx p) (cplx q) circI circJ)
+    let den := Gen.pd_den (Gen.pd_pij (cplx p) (cplx q) circI circJ) (Gen.pd_qij (cplx p) (cplx q) circI circJ)
+    rad.re = (p 0 * q 2 - q 0 * p 2) ^ 2 + (p 1 * q 2 - q 1 * p 2) ^ 2 ∧ rad.im = 0 ∧
+    den.re = -4 * (p 2 * q 2) ∧ den.im = 0 := by
+  simp [Gen.pd_radicand, Gen.pd_den, Gen.pd_pqi, Gen.pd_pqj, Gen.pd_pij, Gen.pd_qij, det3, cplx, circI, circJ]
+    <;> (try constructor) <;> (try constructor) <;> (try constructor) <;> (try ring)
+
+/-- hence `(factor · √rad / den)² = |p/p_z − q/q_z|²` for finite points of ANY representative: with `s² = rad`
+    the returned value `d = factor·s/den` satisfies `d² = dist²` -/
+theorem T09_1_dist_sq (p q : Nat → F) (s : F) (hp : p 2 ≠ 0) (hq : q 2 ≠ 0)
+    (hs : s ^ 2 = (p 0 * q 2 - q 0 * p 2) ^ 2 + (p 1 * q 2 - q 1 * p 2) ^ 2) :
+    ((Gen.pd_factor : F) * s / (-4 * (p 2 * q 2))) ^ 2 = dist2 [p 0, p 1, p 2] [q 0, q 1, q 2] := by
+  simp [Gen.pd_factor, dist2, norm2, ldot, vsub, affine]
+  field_simp
+  linear_combination hs
+
+/-- symmetric in the two points; zero radicand iff the affine points coincide is the statement
+    `sum of two squares = 0` (ordered fields), recorded in C16's ordered-field section -/
+theorem T09_1_symmetric (p q : Nat → F) :
+    (Gen.pd_radicand (Gen.pd_pqi (cplx p) (cplx q) circI circJ) (Gen.pd_pqj (cplx p) (cplx q) circI circJ)).re
+      = (Gen.pd_radicand (Gen.pd_pqi (cplx q) (cplx p) circI circJ) (Gen.pd_pqj (cplx q) (cplx p) circI circJ)).re := by
+  simp [Gen.pd_radicand, Gen.pd_pqi, Gen.pd_pqj, det3, cplx, circI, circJ]
+  ring
+
+/-- **T09.3** point – hyperplane: the foot of the perpendicular lies on the hyperplane and its squared distance to
+    the point is `(h·p)² / |n|²` (plane: 2-D lines; space: planes) -/
+theorem T09_3_foot_2d (a b c x y : F) (hn : a ^ 2 + b ^ 2 ≠ 0) :
+    ldot [a, b, c] (footHyper [a, b, c] [x, y, 1]) = 0 ∧
+    dist2 (footHyper [a, b, c] [x, y, 1]) [x, y, 1] = dist2Hyper [a, b, c] [x, y, 1] := by
+  simp [footHyper, dist2Hyper, dist2, norm2, ldot, vsub, vscale, affine, normal, offset, homog]
+  constructor <;> field_simp <;> ring
+
+theorem T09_3_foot_3d (a b c d x y z : F) (hn : a ^ 2 + b ^ 2 + c ^ 2 ≠ 0) :
+    ldot [a, b, c, d] (footHyper [a, b, c, d] [x, y, z, 1]) = 0 ∧
+    dist2 (footHyper [a, b, c, d] [x, y, z, 1]) [x, y, z, 1] = dist2Hyper [a, b, c, d] [x, y, z, 1] := by
+  simp [footHyper, dist2Hyper, dist2, norm2, ldot, vsub, vscale, affine, normal, offset, homog]
+  constructor <;> field_simp <;> ring
+
+/-- **T09.5** Laguerre: for `u = b − a`, `v = c − a` (points with last coordinate 1) the cross ratio that `angle(a,b,c)`
+    takes the logarithm of is `(u v̄)/(ū v)`: numerator `u·v̄`, denominator its complex conjugate.  So it has modulus 1 and
+    argument `2(arg u − arg v)`, is invariant under common rotations of u, v and is inverted when b, c are swapped. -/
+theorem T09_5_laguerre (a b c : Nat → F) (ha : a 2 = 1) (hb : b 2 = 1) (hc : c 2 = 1) :
+    let num := Gen.cr_num (Gen.cr_ac_from (cplx a) (cplx b) (cplx c) circI circJ) (Gen.cr_bd_from (cplx a) (cplx b) (cplx c) circI circJ)
+                 (Gen.cr_ad_from (cplx a) (cplx b) (cplx c) circI circJ) (Gen.cr_bc_from (cplx a) (cplx b) (cplx c) circI circJ)
+    let den := Gen.cr_den (Gen.cr_ac_from (cplx a) (cplx b) (cplx c) circI circJ) (Gen.cr_bd_from (cplx a) (cplx b) (cplx c) circI circJ)
+                 (Gen.cr_ad_from (cplx a) (cplx b) (cplx c) circI circJ) (Gen.cr_bc_from (cplx a) (cplx b) (cplx c) circI circJ)
+    let u0 := b 0 - a 0; let u1 := b 1 - a 1; let v0 := c 0 - a 0; let v1 := c 1 - a 1
+    num.re = u0 * v0 + u1 * v1 ∧ num.im = u1 * v0 - u0 * v1 ∧ den.re = num.re ∧ den.im = - num.im := by
+  simp [Gen.cr_num, Gen.cr_den, Gen.cr_ac_from, Gen.cr_bd_from, Gen.cr_ad_from, Gen.cr_bc_from, det3, cplx, circI, circJ, ha, hb, hc]
+    <;> (try constructor) <;> (try constructor) <;> (try constructor) <;> (try ring)
+
 end Geo
